@@ -40,7 +40,8 @@ class C03(core.Prop):
                    'constructed directly, as resolve_disconnected_molecule leaves it; every descriptor is a fully symbolic string '
                    'kind (4) + label (fixed length 0-2, alnum) + order digit (1-3); base edge order symbolic 0-4',
                    'compatibility formula of DESIGN.md section 3.1; under the label-insensitive convention either descriptor\'s order is accepted',
-                   '"exactly that many" is checked as maximality: when fewer bonds than the edge order were made, no compatible pair is left']
+                   '"exactly that many" is checked as maximality: when fewer bonds than the edge order were made, no compatible pair is left',
+                   'pipeline shapes and the 1x1 unit shapes first drive the same input under the *other* matching convention (history within one process), then the one judged']
     OUTSIDE = ['more than 3 coarse nodes / 2 atoms per node / 2 descriptors per atom in the unit drive',
                'descriptor order digit 0 and labels longer than 2']
     BOUNDS = {
@@ -120,9 +121,12 @@ class C03(core.Prop):
 
     def execute(self, M, shape, inp):
         if shape['mode'] == 'pipe':
+            # history inside one process: the same string is first resolved under the other matching convention
+            core.guard(pl.run_resolver, M, inp['text'], legacy=not shape['legacy'])
             return core.guard(pl.run_resolver, M, inp['text'], legacy=shape['legacy'])
 
-        def run():
+        def run(legacy=None):
+            legacy = shape['legacy'] if legacy is None else legacy
             meta = nx.Graph()
             mol = nx.Graph()
             nid = 0
@@ -141,11 +145,13 @@ class C03(core.Prop):
                 meta.add_edge(a, b, order=o)
             R = M.resolve.MoleculeResolver
             res = R.__new__(R)
-            res.meta_graph, res.molecule, res.legacy = meta, mol, shape['legacy']
+            res.meta_graph, res.molecule, res.legacy = meta, mol, legacy
             res.edges_from_bonding_descrpt(all_atom=True)
             bonds = [[a, b, d.get('order'), list(d['bonding'])] for a, b, d in mol.edges(data=True)]
             left = {n: list(meta.nodes[c]['graph'].nodes[n]['bonding']) for c in meta.nodes for n in meta.nodes[c]['graph'].nodes}
             return {'bonds': bonds, 'left': left}
+        if shape['na'] * shape['nd'] == 1:
+            core.guard(run, not shape['legacy'])    # same descriptors under the other convention first (same process)
         return core.guard(run)
 
     # ------------------------------------------------------------------
